@@ -56,6 +56,7 @@ from twisted.internet import defer, task
 from twisted.internet.defer import CancelledError as t_CancelledError
 from twisted.internet.defer import DeferredList, inlineCallbacks, returnValue
 from twisted.internet.endpoints import HostnameEndpoint
+from twisted.internet.error import ConnectingCancelledError
 from twisted.python.compat import nativeString
 from twisted.python.compat import unicode as _unicode
 from twisted.python.failure import Failure
@@ -1182,12 +1183,16 @@ class KafkaClient(object):
             ep = self._endpoint_factory(self.reactor, host, port)
             try:
                 protocol = yield ep.connect(_bootstrapFactory)
+            except (t_CancelledError, ConnectingCancelledError):
+                raise  # The caller cancelled the operation: don't try the next host.
             except Exception as e:
                 log.debug("%s: bootstrap connect to %s:%s -> %s", self, host, port, e)
                 continue
 
             try:
                 response = yield protocol.request(request).addTimeout(self.timeout, self.reactor)
+            except t_CancelledError:
+                raise  # Cancelled by the caller (a timeout surfaces as TimeoutError).
             except Exception:
                 log.debug(
                     "%s: bootstrap %s to %s:%s failed",
